@@ -42,6 +42,11 @@ def scenario(targets, threads, order, json_out=False, extra=(), port=22):
             servers[(host, port)] = 'timeout'
         elif t[0] == 'unresolvable':
             host = 'no-such-host-%d.example' % i
+        elif t[0] == 'line':
+            # ('line', text of the targets-file line, label under which the tool reports it)
+            lines.append(t[1])
+            labels.append(t[2])
+            continue
         lines.append(host)
         labels.append('%s:%d' % (host, port))
     argv = (['-j'] if json_out else ['-n']) + ['--skip-rate-test', '--threads', str(threads)] + list(extra) + ['-T', '{tmp}/targets.txt']
@@ -86,6 +91,8 @@ def single_scenario(t, i, json_out=False, extra=(), port=22):
         servers[(host, port)] = 'timeout'
     elif t[0] == 'unresolvable':
         host = 'no-such-host-%d.example' % i
+    elif t[0] == 'line':
+        host = t[1]
     return {'argv': (['-j'] if json_out else ['-n']) + ['--skip-rate-test'] + list(extra) + [host], 'servers': servers}
 
 
